@@ -5,7 +5,10 @@ def _mx():
     return m
 
 # every quick run: the 8-element sub-matrix + two GNU-dialect configurations + the first NQX macro/ABI/flag configurations
-def quick8(tier): return list(_mx().QUICK_CFGS) + list(_mx().GNU_CFGS[:2]) + list(_mx().EXTRA_CFGS[:_mx().NQX])
+def quick8(tier):
+    if tier == "thorough":
+        return list(_mx().QUICK_CFGS) + list(_mx().GNU_CFGS) + list(_mx().EXTRA_CFGS)
+    return list(_mx().QUICK_CFGS) + list(_mx().GNU_CFGS[:2]) + list(_mx().EXTRA_CFGS[:_mx().NQX])
 def quick10(tier): return quick8(tier)
 def quick11x(tier): return quick8(tier)
 def quick16_all(tier): return _mx().all_cfgs() if tier == 'thorough' else list(_mx().QUICK16_CFGS)
@@ -13,7 +16,7 @@ def all48_thorough(tier): return _mx().all_cfgs() if tier == "thorough" else qui
 def san_quick(tier): return list(_mx().SAN_CFGS_ALL if tier == "thorough" else _mx().SAN_CFGS_QUICK)
 def none(tier): return []
 def probes2(tier): return ['probe-gcc-O2-c++17-std','probe-clang-O0-c++20-std']
-def cfgs4(tier): return (['gcc-O0-c++17-abacus','gcc-O2-c++17-std','clang-O1-c++17-std','clang-O3-c++17-abacus'] + list(_mx().GNU_CFGS[:2]) + list(_mx().EXTRA_CFGS[:_mx().NQX])) if tier=='quick' else quick8(tier) + list(_mx().EXTRA_CFGS[_mx().NQX:])
+def cfgs4(tier): return (['gcc-O0-c++17-abacus','gcc-O2-c++17-std','clang-O1-c++17-std','clang-O3-c++17-abacus'] + list(_mx().GNU_CFGS[:2]) + list(_mx().EXTRA_CFGS[:_mx().NQX])) if tier=='quick' else quick8(tier)
 
 COMMON_ASSUMPTIONS = [
     "x86-64 Linux, g++ 12.2 / clang++ 14 with libstdc++ 12: other targets, compilers and standard libraries are not executed",
